@@ -42,7 +42,11 @@ def value_error_reason(text: str) -> bool:
 
 
 def _h(obj) -> str:
-    return hashlib.sha1(repr(obj).encode()).hexdigest()[:12]
+    try:
+        r = repr(obj)
+    except ValueError:       # an int of more than 4300 digits among token values: Python refuses to print it
+        r = "<unprintable: contains a huge int>"
+    return hashlib.sha1(r.encode()).hexdigest()[:12]
 
 
 class World:
